@@ -466,6 +466,13 @@ type wfExec struct {
 	// hook is called inside every callback, after the event is logged as started and
 	// before the scripted outcome is returned (seq = index of the event in the trace).
 	hook func(seq int, ev *Ev)
+	// inflight counts harness callbacks that have begun and not yet ended (an implementation may
+	// return from Run without waiting for a callback that ignores cancellation).
+	inflight int
+	// lastStore / storeSplit: behavioural "same store" probe, see probeStore.
+	lastStore  *flyt.SharedStore
+	lastStoreBy string
+	storeSplit string
 }
 
 func newWfExec(sc *WF) *wfExec {
@@ -487,7 +494,9 @@ func newWfExec(sc *WF) *wfExec {
 		if ns.Flow != nil {
 			f := flyt.NewFlow(x.nodes[ns.Flow.Start])
 			if ns.Flow.N > 1 {
-				f.BaseNode = flyt.NewBaseNode(flyt.WithMaxRetries(ns.Flow.N), flyt.WithWait(time.Duration(ns.Flow.WaitMs)*time.Millisecond))
+				if fld, ok := embedded(f, "BaseNode"); ok {
+					fld.Set(reflect.ValueOf(flyt.NewBaseNode(flyt.WithMaxRetries(ns.Flow.N), flyt.WithWait(time.Duration(ns.Flow.WaitMs)*time.Millisecond))))
+				}
 			}
 			x.nodes[i] = f
 		}
@@ -517,9 +526,53 @@ func (x *wfExec) begin(ev Ev) int {
 		ev.Batch = true
 	}
 	x.trace = append(x.trace, ev)
+	x.inflight++
 	seq := ev.Seq
 	x.mu.Unlock()
 	return seq
+}
+
+// probeStore establishes behaviourally whether the store handed to this callback is the store
+// the previous callback of the run saw: a write through one must be visible through the other,
+// in both directions (two handles onto one map are the same store; a copy is not).
+func (x *wfExec) probeStore(s *flyt.SharedStore, by string) {
+	if s == nil {
+		return
+	}
+	x.mu.Lock()
+	prev, prevBy := x.lastStore, x.lastStoreBy
+	x.lastStore, x.lastStoreBy = s, by
+	split := x.storeSplit
+	x.mu.Unlock()
+	if prev == nil || prev == s || split != "" {
+		return
+	}
+	const k = "\x00verif-store-probe"
+	s.Set(k, by)
+	v1, ok1 := prev.Get(k)
+	prev.Set(k, prevBy)
+	v2, ok2 := s.Get(k)
+	s.Delete(k)
+	prev.Delete(k)
+	if !ok1 || v1 != by || !ok2 || v2 != prevBy {
+		x.mu.Lock()
+		x.storeSplit = fmt.Sprintf("%s received store %p, %s received store %p, and a write through one is not visible through the other", by, s, prevBy, prev)
+		x.mu.Unlock()
+	}
+}
+
+// settle lets callbacks that are still running after Run has returned finish (virtual time),
+// so that only goroutines flyt itself keeps blocked can outlive the case.
+func (x *wfExec) settle() {
+	for i := 0; i < 50; i++ {
+		x.mu.Lock()
+		n := x.inflight
+		x.mu.Unlock()
+		if n == 0 {
+			return
+		}
+		time.Sleep(time.Second)
+	}
 }
 
 func (x *wfExec) end(seq int, ret any, err error, act string) {
@@ -533,6 +586,7 @@ func (x *wfExec) end(seq int, ret any, err error, act string) {
 	}
 	x.mu.Lock()
 	x.trace[seq].T1 = time.Since(x.t0)
+	x.inflight--
 	x.mu.Unlock()
 }
 
@@ -560,6 +614,7 @@ func (x *wfExec) prep(ctx context.Context, leaf int, store *flyt.SharedStore) (a
 		panic(fmt.Sprintf("runaway flow: %d node runs after the fuel (%d) was exhausted", -x.fuel, x.sc.Fuel))
 	}
 	seq := x.begin(Ev{Leaf: leaf, Visit: visit, Phase: "prep", Store: store, Ctx: ctx})
+	x.probeStore(store, fmt.Sprintf("L%d.v%d.prep", leaf, visit))
 	o := x.sc.outcome(leaf, visit, "prep", 0)
 	var ret any
 	var err error
@@ -643,6 +698,7 @@ func (x *wfExec) post(ctx context.Context, leaf int, store *flyt.SharedStore, in
 		ev.In2Wrap = true
 	}
 	seq := x.begin(ev)
+	x.probeStore(store, fmt.Sprintf("L%d.v%d.post", leaf, visit))
 	if store != nil {
 		var path []int
 		if v, ok := store.Get("path"); ok {
@@ -896,6 +952,7 @@ func (x *wfExec) run(ctx context.Context) runResult {
 	x.mu.Lock()
 	x.fuel = x.sc.Fuel
 	lo := len(x.trace)
+	x.lastStore, x.lastStoreBy = nil, ""
 	x.mu.Unlock()
 	store := flyt.NewSharedStore()
 	var rr runResult
@@ -916,6 +973,7 @@ func (x *wfExec) run(ctx context.Context) runResult {
 	x.mu.Lock()
 	rr.Hi = len(x.trace)
 	x.mu.Unlock()
+	x.settle()
 	return rr
 }
 
